@@ -56,6 +56,16 @@ static mut MAX_OBJECTS: usize = 64;
 
 static mut MANUAL_EVENTS_BETWEEN_COLLECT: usize = 64;
 
+std::thread_local! {
+    /// Whether this thread is running a collection, on whichever participant. A collection must
+    /// not start within a collection. `Local::collecting` alone cannot tell: once the thread's
+    /// handle has been destroyed (thread teardown), every critical section - also the one the
+    /// disposal of a reference-counted object enters while a collection is running it - is a
+    /// participant of its own. (Const-initialised and without destructor, so that it can be used
+    /// at any point of a thread's life.)
+    static THREAD_COLLECTING: Cell<bool> = const { Cell::new(false) };
+}
+
 /// A bag of deferred functions.
 pub(crate) struct Bag(Vec<Deferred>);
 
@@ -494,7 +504,10 @@ impl Local {
     /// Unpins the `Local`.
     #[inline]
     pub(crate) fn unpin(&self) {
-        if self.guard_count.get() == 1 && !self.collecting.get() {
+        if self.guard_count.get() == 1
+            && !self.collecting.get()
+            && !THREAD_COLLECTING.with(|c| c.replace(true))
+        {
             self.collecting.set(true);
             while self.must_collect.get() {
                 self.must_collect.set(false);
@@ -508,6 +521,7 @@ impl Local {
                 }
             }
             self.collecting.set(false);
+            THREAD_COLLECTING.with(|c| c.set(false));
         }
 
         // Read the count only now: a deferred function that ran in the collection above may have
